@@ -24,6 +24,8 @@ import numpy as np
 
 
 def sha(a):
+    if a is None:
+        return "absent"
     if isinstance(a, dict):  # InElastic state: {elemType: array}
         h = hashlib.sha1()
         for k in sorted(a, key=str):
@@ -39,12 +41,16 @@ def sha(a):
 
 
 def iszero(a):
+    if a is None:
+        return False
     if isinstance(a, dict):
         return all(not np.any(v) for v in a.values())
     return not np.any(np.asarray(a))
 
 
 def deep(a):
+    if a is None:
+        return None
     if isinstance(a, dict):
         return {k: np.array(v, copy=True) for k, v in a.items()}
     return np.array(a, copy=True)
@@ -52,6 +58,8 @@ def deep(a):
 
 def fill(a, c):
     """in-place write by the user into an array (or dict of arrays) he was handed"""
+    if a is None:
+        return
     if isinstance(a, dict):
         for v in a.values():
             v[...] = c
@@ -103,8 +111,23 @@ class Adapter:
     can_setmesh = True
     can_saveload = True
 
+    algo = None       # time algorithm of this case (name of an AlgoType member), None = the adapter's default
+    alpha = None
+    time_dependent = False
+
     def __init__(self):
         self.nmesh_made = 0
+
+    def set_hyperbolic(self, simu, dt_implicit, dt_explicit):
+        algo = AlgoType(self.algo or "newmark")
+        kw = {}
+        if self.alpha is not None and algo in (AlgoType.hht, AlgoType.hht_newmark):
+            kw["alpha"] = self.alpha
+        elif algo == AlgoType.hht:
+            kw["alpha"] = 0.1
+        elif algo == AlgoType.hht_newmark:
+            kw["alpha"] = 1 / 6
+        simu.Solver_Set_Hyperbolic_Algorithm(dt=dt_explicit if algo == AlgoType.euler_explicit else dt_implicit, algo=algo, **kw)
 
     def new_mesh(self):
         nx, ny = MESH_SHAPES[self.nmesh_made % len(MESH_SHAPES)]
@@ -116,7 +139,8 @@ class Adapter:
         return [simu._Get_u_n(pt), simu._Get_v_n(pt), simu._Get_a_n(pt)][: len(self.keys)]
 
     def entry_fields(self, res):
-        return [res[k] for k in self.keys]
+        # a key that is missing from the iteration dict is observed as "absent" (never equal to a saved array)
+        return [res.get(k) for k in self.keys]
 
     def internal(self, simu):
         """committed internal variables that are not live fields (name -> array/dict), compared with the
@@ -160,9 +184,11 @@ class ElasticDyn(ElasticStatic):
     keys = ["displacement", "speed", "accel"]
     results = ["displacement", "speed", "accel"]
 
+    time_dependent = True
+
     def build(self, folder):
         simu = super().build(folder)
-        simu.Solver_Set_Hyperbolic_Algorithm(dt=1e-3)
+        self.set_hyperbolic(simu, 1e-3, 1e-4)   # explicit: below h/c ~ 7e-4 on these meshes
         return simu
 
     def bc(self, simu, n):
@@ -190,9 +216,11 @@ class ThermalParabolic(ThermalStatic):
     keys = ["thermal", "thermalDot"]
     results = ["thermal", "thermalDot"]
 
+    time_dependent = True
+
     def build(self, folder):
         simu = super().build(folder)
-        simu.Solver_Set_Parabolic_Algorithm(dt=0.1)
+        simu.Solver_Set_Parabolic_Algorithm(dt=0.1, **({"alpha": self.alpha} if self.alpha is not None else {}))
         return simu
 
 
@@ -278,9 +306,11 @@ class HyperElasticDyn(HyperElastic):
     keys = ["displacement", "speed", "accel"]
     results = ["displacement", "speed", "accel"]
 
+    time_dependent = True
+
     def build(self, folder):
         simu = super().build(folder)
-        simu.Solver_Set_Hyperbolic_Algorithm(0.01)
+        self.set_hyperbolic(simu, 0.01, 1e-4)
         return simu
 
     def bc(self, simu, n):
@@ -365,6 +395,9 @@ class Run:
     def __init__(self, case, root):
         self.case = case
         self.ad = ADAPTERS[case["sim"]]()
+        self.ad.algo = case.get("algo")
+        self.ad.alpha = case.get("alpha")
+        self.rates_nonzero = 0   # saved iterations whose rate fields (v, a / thermalDot) were all non-zero
         self.root = os.path.join(root, "case%s" % case["id"])
         self.simu = self.ad.build("")
         self.reg = {"0": None}  # token -> sha (per field the zero vector differs in size: handled by driver via 'zero')
@@ -478,6 +511,8 @@ class Run:
             for rname in ad.results:
                 resv.append(None if rname is None else deep(s.Result(rname)))
             self.ghost.append((self.cur_mesh, mesh_sig(s.mesh), live, resv, {k: deep(v) for k, v in ad.internal(s).items()}))
+            if ad.time_dependent and len(live) > 1 and all(not iszero(x) for x in live[1:]):
+                self.rates_nonzero += 1
             self.check_store_vs_ghost(n, "SaveIter")
         elif name == "SetFolder":
             s.folder = self.folder(op[1])
@@ -593,7 +628,8 @@ class Run:
                        "abandoned": op[0] == "Solve" and any(e[1] == "write-reached-live" for e in self.events)}
                 break
         out = {"id": self.case["id"], "sim": self.case["sim"], "fails": self.fails, "events": self.events, "error": err,
-               "reg": self.reg, "nfields": len(self.ad.keys)}
+               "reg": self.reg, "nfields": len(self.ad.keys), "rates_nonzero": self.rates_nonzero,
+               "algo": (str(self.simu.algo.value) if hasattr(self.simu.algo, "value") else str(self.simu.algo))}
         if err is None:
             with contextlib.redirect_stdout(io.StringIO()):
                 o = self.obs()
@@ -772,6 +808,25 @@ PROBES = {"phasefield_save": probe_phasefield_save, "phasefield_history": probe_
 
 def main():
     req = json.loads(sys.stdin.read())
+    if req.get("query") == "algos":
+        # which time algorithms does each time-dependent configuration accept (asked to the implementation)
+        hyp = [a.value for a in AlgoType.Get_Hyperbolic_Types()]
+        sup = {}
+        with contextlib.redirect_stdout(io.StringIO()):
+            for name, cls in ADAPTERS.items():
+                if not cls.time_dependent or name == "Thermal_parabolic":
+                    continue
+                sup[name] = []
+                for a in hyp:
+                    ad = cls()
+                    ad.algo = a
+                    try:
+                        ad.build("")
+                        sup[name].append(a)
+                    except AssertionError:
+                        pass
+        sys.stdout.write(json.dumps({"hyperbolic": hyp, "all": [a.value for a in AlgoType], "supported": sup}))
+        return
     root = req["root"]
     assert "/build/C15" in root
     os.makedirs(root, exist_ok=True)
